@@ -121,6 +121,43 @@ class ListV:
         return "ListV(%r)" % self.items
 
 
+class MutRef:
+    """a `&mut` to a scalar stored inside a collection: reads and writes go to the slot"""
+    __slots__ = ("get", "set")
+
+    def __init__(self, get, set_):
+        self.get = get
+        self.set = set_
+
+    def __repr__(self):
+        return "&mut %r" % (self.get(),)
+
+
+def _is_scalar(x):
+    return isinstance(x, (int, float, bool, str)) or (isinstance(x, tuple) and not isinstance(x, Unknown))
+
+
+def _slot_ref(lst, i):
+    return MutRef(lambda: lst.items[i], lambda v: lst.items.__setitem__(i, v))
+
+
+def _map_value_ref(lst, i):
+    return MutRef(lambda: lst.items[i][1], lambda v: lst.items.__setitem__(i, (lst.items[i][0], v)))
+
+
+def _mut_view(lst):
+    """the items of `lst.iter_mut()`: scalars become slot references, map entries (key, &mut value)"""
+    out = []
+    for i, x in enumerate(lst.items):
+        if isinstance(x, tuple) and len(x) == 2 and not isinstance(x[1], (Var, ListV)):
+            out.append((x[0], _map_value_ref(lst, i)))
+        elif _is_scalar(x) and not isinstance(x, tuple):
+            out.append(_slot_ref(lst, i))
+        else:
+            out.append(x)
+    return ListV(out)
+
+
 class Closure:
     def __init__(self, node, env):
         self.node = node
@@ -299,6 +336,20 @@ def split_template(t):
     return out
 
 
+def _walk_pat(p):
+    yield p
+    for key in ("pat", "pats", "before", "after", "mid", "fields"):
+        v = p.get(key)
+        if isinstance(v, dict):
+            for x in _walk_pat(v):
+                yield x
+        elif isinstance(v, list):
+            for q in v:
+                if isinstance(q, dict):
+                    for x in _walk_pat(q.get("pat", q) if "pat" in q and "k" not in q else q):
+                        yield x
+
+
 def _deep_clone(v):
     """Rust's clone of owned data: nothing is shared with the original (models of foreign handles are kept as they are)"""
     if isinstance(v, ListV):
@@ -385,7 +436,15 @@ class Interp:
                     f = ff
                     break
         if f is None or "body" not in f:
+            md = re.match(r"^<(.+) as (?:std|core)::default::Default>::default$", path_n)
+            if md and not args:
+                d = self.default_of(md.group(1))
+                if d is not None:
+                    return d
             return Unknown("no body for " + path)
+        for a_ in args:
+            if is_unknown(a_):
+                return a_  # an argument that could not be evaluated poisons the call
         if self.depth > self.max_depth:
             return Unknown("depth limit in " + path)
         self.depth += 1
@@ -405,6 +464,39 @@ class Interp:
         finally:
             self.depth -= 1
             self.fn_stack.pop()
+
+    def default_of(self, ty, depth=0):
+        """the value of a derived Default: field-wise defaults (None when a field type is not understood)"""
+        ty = ty.strip()
+        if depth > 6:
+            return None
+        if ty in ("f64", "f32"):
+            return 0.0
+        if ty in ("usize", "u64", "u32", "u16", "u8", "isize", "i64", "i32", "i16", "i8"):
+            return 0
+        if ty == "bool":
+            return False
+        if ty in ("std::string::String", "String", "alloc::string::String"):
+            return Rope()
+        if ty.startswith(("std::vec::Vec<", "indexmap::IndexMap<", "indexmap::IndexSet<", "std::collections::HashMap<", "std::collections::VecDeque<", "std::collections::HashSet<", "std::collections::BTreeMap<")):
+            return ListV([])
+        if ty.startswith(("std::option::Option<", "core::option::Option<")):
+            return Var(NONE_PATHS[0])
+        b = base_ty(ty)
+        imp = "<%s as std::default::Default>::default" % b
+        f = self.F.fns.get(imp)
+        if f is not None and "body" in f:
+            return self.call_fn(imp, [])
+        st = self.F.structs.get(b)
+        if st is not None:
+            fields = {}
+            for fd in st["variants"][0]["fields"]:
+                v = self.default_of(fd["ty"], depth + 1)
+                if v is None:
+                    return None
+                fields[fd["name"]] = v
+            return Var(b, fields=fields)
+        return None
 
     def deref(self, v):
         """one overloaded-deref step on a struct value, or None"""
@@ -872,6 +964,16 @@ class Interp:
         path = norm(n.get("path", "?"))
         if path.endswith(">") and "<" in path and not path.startswith("<"):
             path = path[:path.index("<")]  # `Self { .. }` inside a generic impl: utils::Spanned<T>
+        if n.get("base") is not None:
+            # functional record update: `Self { a: .., ..base }`
+            b = self.ev(n["base"], env)
+            if is_unknown(b):
+                return b
+            if not isinstance(b, Var):
+                return Unknown("struct base %r" % (b,))
+            merged = dict(b.fields)
+            merged.update(fields)
+            fields = merged
         return Var(path, fields=fields)
 
     def ev_Field(self, n, env):
@@ -899,6 +1001,8 @@ class Interp:
         v = self.ev(n["a"], env)
         op = n["op"]
         if op == "*":
+            if isinstance(v, MutRef):
+                return v.get()
             if n.get("callee"):
                 d = self.deref(v) if isinstance(v, Var) else None
                 if d is not None:
@@ -919,6 +1023,8 @@ class Interp:
     def ev_Binary(self, n, env):
         op = n["op"]
         a = self.ev(n["a"], env)
+        if isinstance(a, MutRef):
+            a = a.get()
         if op == "&&":
             if a is False:
                 return False
@@ -994,6 +1100,18 @@ class Interp:
             return Var(cn, args)
         if cn in self.models:
             return self.models[cn](self, args)
+        if cn in ("std::mem::take", "core::mem::take", "std::mem::replace", "core::mem::replace") and n["args"]:
+            old_v = args[0]
+            if is_unknown(old_v):
+                return old_v
+            if cn.endswith("take"):
+                new_v = ListV([]) if isinstance(old_v, ListV) else (Rope() if isinstance(old_v, Rope) else (0.0 if isinstance(old_v, float) else (0 if isinstance(old_v, int) else (False if isinstance(old_v, bool) else (Var(NONE_PATHS[0]) if isinstance(old_v, Var) and (old_v.path in SOME_PATHS or old_v.path in NONE_PATHS) else None)))))
+                if new_v is None:
+                    return Unknown("mem::take of %r" % (old_v,))
+            else:
+                new_v = args[1]
+            r = self.assign_place(n["args"][0], new_v, env)
+            return r if is_unknown(r) else old_v
         if cn.endswith("box_assume_init_into_vec_unsafe") and args:
             return args[0]
         if cn.endswith("write_box_via_move") and len(args) == 2:
@@ -1006,6 +1124,8 @@ class Interp:
             return ListV([_deep_clone(args[0]) for _ in range(args[1])])
         if cn in ("std::string::String::new", "alloc::string::String::new", "std::string::String::with_capacity"):
             return Rope()
+        if cn.startswith("<indexmap::IndexMap") and cn.endswith("::from") and len(args) == 1 and isinstance(args[0], ListV):
+            return ListV(list(args[0].items))
         if cn in ("indexmap::IndexMap::new", "indexmap::IndexMap::with_capacity", "std::collections::HashMap::new", "std::collections::BTreeMap::new", "indexmap::IndexSet::new", "std::collections::HashSet::new"):
             return ListV([])
         if cn in ("std::convert::From::from", "std::convert::Into::into") and len(args) == 1:
@@ -1105,6 +1225,10 @@ class Interp:
         return self.builtin_method(name, cn, recv, args, n)
 
     def builtin_method(self, name, cn, recv, args, n):
+        # an integer range used as an iterator
+        if isinstance(recv, Var) and "ops::Range" in recv.path and isinstance(recv.fields.get("start", 0), int) and isinstance(recv.fields.get("end"), int) and name in ("collect", "rev", "map", "filter", "filter_map", "flat_map", "for_each", "fold", "all", "any", "into_iter", "iter", "step_by", "zip", "enumerate", "sum", "count", "len", "find", "position", "skip", "take"):
+            hi_ = recv.fields["end"] + (1 if recv.path.endswith("RangeInclusive") else 0)
+            recv = ListV(list(range(recv.fields.get("start", 0), hi_)))
         # `iter.collect::<Option<Vec<_>>>()` / `Result<Vec<_>, _>`: the first None/Err wins
         if name == "collect" and not args and isinstance(recv, ListV):
             ty = self.F.ty(n) or ""
@@ -1232,6 +1356,23 @@ class Interp:
             return UNIT
         if name == "value" and isinstance(recv, Var) and "value" in recv.fields:
             return recv.fields["value"]
+        if isinstance(recv, ListV) and ("IndexSet" in cn or "HashSet" in cn or "BTreeSet" in cn):
+            if name == "insert" and len(args) == 1:
+                if any(_plain(x) == _plain(args[0]) for x in recv.items):
+                    return False
+                recv.items.append(args[0])
+                return True
+            if name == "extend" and len(args) == 1 and isinstance(args[0], ListV):
+                for y in args[0].items:
+                    if not any(_plain(x) == _plain(y) for x in recv.items):
+                        recv.items.append(y)
+                return UNIT
+            if name in ("shift_remove", "swap_remove", "remove") and len(args) == 1:
+                for i_, x in enumerate(recv.items):
+                    if _plain(x) == _plain(args[0]):
+                        del recv.items[i_]
+                        return True
+                return False
         if isinstance(recv, ListV):
             if name == "push" and len(args) == 1:
                 recv.items.append(args[0])
@@ -1242,6 +1383,20 @@ class Interp:
             if name == "next" and not args:
                 if recv.items:
                     return Var(SOME_PATHS[0], [recv.items.pop(0)])
+                return Var(NONE_PATHS[0])
+            if name == "pop_front" and not args:
+                if recv.items:
+                    return Var(SOME_PATHS[0], [recv.items.pop(0)])
+                return Var(NONE_PATHS[0])
+            if name in ("push_back",) and len(args) == 1:
+                recv.items.append(args[0])
+                return UNIT
+            if name in ("push_front",) and len(args) == 1:
+                recv.items.insert(0, args[0])
+                return UNIT
+            if name in ("pop_back",) and not args:
+                if recv.items:
+                    return Var(SOME_PATHS[0], [recv.items.pop()])
                 return Var(NONE_PATHS[0])
             if name == "pop" and not args:
                 if recv.items:
@@ -1266,7 +1421,17 @@ class Interp:
                     return Unknown("predicate not boolean: %r" % (r,))
                 res.append(r)
             return all(res) if name == "all" else any(res)
-        if name in ("iter_mut", "as_mut_slice", "as_mut") and isinstance(recv, ListV) and not args:
+        if name == "iter_mut" and isinstance(recv, ListV) and not args:
+            return _mut_view(recv)
+        if name == "values_mut" and isinstance(recv, ListV) and not args and all(isinstance(x, tuple) and len(x) == 2 for x in recv.items):
+            return ListV([x[1] for x in _mut_view(recv).items])
+        if name == "get_mut" and isinstance(recv, ListV) and len(args) == 1 and isinstance(args[0], int) and not all(isinstance(x, tuple) and len(x) == 2 for x in recv.items):
+            i_ = args[0]
+            if 0 <= i_ < len(recv.items):
+                x = recv.items[i_]
+                return Var(SOME_PATHS[0], [x if isinstance(x, (Var, ListV)) else _slot_ref(recv, i_)])
+            return Var(NONE_PATHS[0])
+        if name in ("as_mut_slice", "as_mut") and isinstance(recv, ListV) and not args:
             return recv
         if name == "for_each" and isinstance(recv, ListV) and len(args) == 1:
             for x in list(recv.items):
@@ -1296,6 +1461,17 @@ class Interp:
                 if r:
                     return Var(SOME_PATHS[0], [x if name == "find" else i_])
             return Var(NONE_PATHS[0])
+        if name in ("sort", "sort_unstable") and isinstance(recv, ListV) and not args:
+            keys = [_plain(x) for x in recv.items]
+            if all(isinstance(k_, str) for k_ in keys):
+                # Rust orders strings by bytes
+                order = sorted(range(len(keys)), key=lambda i_: keys[i_].encode("utf8"))
+            elif all(isinstance(k_, (int, float)) and not isinstance(k_, bool) for k_ in keys):
+                order = sorted(range(len(keys)), key=lambda i_: keys[i_])
+            else:
+                return Unknown("sort of %r" % (recv,))
+            recv.items[:] = [recv.items[i_] for i_ in order]
+            return UNIT
         if name == "zip" and isinstance(recv, ListV) and len(args) == 1 and isinstance(args[0], ListV):
             return ListV([(a_, b_) for a_, b_ in zip(recv.items, args[0].items)])
         if name in ("skip", "take") and isinstance(recv, ListV) and len(args) == 1 and isinstance(args[0], int):
@@ -1321,6 +1497,30 @@ class Interp:
                     out.append(x)
             return ListV(out)
         if name in ("reserve", "shrink_to_fit") and isinstance(recv, ListV):
+            return UNIT
+        if name == "retain" and isinstance(recv, ListV) and len(args) == 1 and isinstance(args[0], Closure) and len(args[0].node["params"]) == 2 and all(isinstance(x, tuple) and len(x) == 2 for x in recv.items):
+            # map.retain(|key, value| ..): the closure may write through `value`
+            f = args[0]
+            keep = []
+            for k_, v_ in recv.items:
+                env = dict(f.env)
+                pk, pv = f.node["params"]
+                if self.bind(pk, k_, env) is not True or self.bind(pv, v_, env) is not True:
+                    return Unknown("retain closure params")
+                try:
+                    r = self.ev(f.node["body"], env)
+                except _Return as rr:
+                    r = rr.v
+                if not isinstance(r, bool):
+                    return Unknown("retain predicate not boolean: %r" % (r,))
+                ids = [n_["id"] for n_ in _walk_pat(pv) if n_.get("k") == "PBind"]
+                nv = env.get(ids[0], v_) if ids else v_
+                for kk in f.env:
+                    if kk in env:
+                        f.env[kk] = env[kk]
+                if r:
+                    keep.append((k_, nv))
+            recv.items[:] = keep
             return UNIT
         if name == "retain" and isinstance(recv, ListV) and len(args) == 1:
             keep = []
@@ -1498,6 +1698,13 @@ class Interp:
                 if b_ != b_:
                     return a_
             return max(a_, b_) if name == "max" else min(a_, b_)
+        if name in ("ceil", "floor", "round", "trunc") and not args and isinstance(recv, float):
+            import math as _m
+            if recv != recv or abs(recv) == float("inf"):
+                return recv
+            if name == "round":
+                return float(_m.floor(abs(recv) + 0.5)) * (1.0 if recv >= 0 else -1.0)  # half away from zero
+            return float({"ceil": _m.ceil, "floor": _m.floor, "trunc": _m.trunc}[name](recv))
         if name == "fract" and not args and isinstance(recv, float):
             import math as _m
             return _m.fmod(recv, 1.0) if recv == recv and abs(recv) != float("inf") else float("nan")
@@ -1506,8 +1713,10 @@ class Interp:
             if name == "entry" and len(args) == 1:
                 return Var("MAPENTRY", [recv, args[0]])
             if name in ("get", "get_mut") and len(args) == 1:
-                for k_, v_ in recv.items:
+                for i_, (k_, v_) in enumerate(recv.items):
                     if _plain(k_) == key:
+                        if name == "get_mut" and not isinstance(v_, (Var, ListV)):
+                            return Var(SOME_PATHS[0], [_map_value_ref(recv, i_)])
                         return Var(SOME_PATHS[0], [v_])
                 return Var(NONE_PATHS[0])
             if name == "contains_key" and len(args) == 1:
@@ -1559,6 +1768,9 @@ class Interp:
             d = self.deref(recv)
             if d is not None and not is_unknown(d):
                 return self.builtin_method(name, cn, d, args, n)
+        for a_ in args:
+            if is_unknown(a_):
+                return a_
         return Unknown("method %s (%s) on %r" % (name, cn, recv))
 
     def ev_Index(self, n, env):
@@ -1588,7 +1800,14 @@ class Interp:
 
     def ev_Assign(self, n, env):
         v = self.ev(n["rhs"], env)
-        lhs = n["lhs"]
+        return self.assign_place(n["lhs"], v, env)
+
+    def assign_place(self, lhs, v, env):
+        through_deref = lhs.get("k") == "Unary" and lhs.get("op") == "*"
+        lhs = strip_node(lhs)
+        if lhs["k"] == "Path" and lhs.get("res") == "local" and through_deref and isinstance(env.get(lhs["id"]), MutRef):
+            env[lhs["id"]].set(v)
+            return UNIT
         if lhs["k"] == "Path" and lhs.get("res") == "local":
             env[lhs["id"]] = v
             return UNIT
@@ -1616,13 +1835,25 @@ class Interp:
             if isinstance(cur, (int, float)) and isinstance(rhs, (int, float)) and not isinstance(cur, bool):
                 return {"+": cur + rhs, "-": cur - rhs, "*": cur * rhs, "/": (cur / rhs if rhs else Unknown("div0"))}.get(op, Unknown("assign-op " + op))
             return Unknown("assign-op on %r" % (cur,))
+        if isinstance(rhs, MutRef):
+            rhs = rhs.get()
         if lhs.get("k") == "Path" and lhs.get("res") == "local":
-            env[lhs["id"]] = combine(env.get(lhs["id"], Unknown("unbound")))
+            cur = env.get(lhs["id"], Unknown("unbound"))
+            if isinstance(cur, MutRef):
+                cur.set(combine(cur.get()))
+                return UNIT
+            env[lhs["id"]] = combine(cur)
             return UNIT
         if lhs.get("k") == "Field":
             base = self.ev(lhs["a"], env)
             if isinstance(base, Var) and lhs["name"] in base.fields:
                 base.fields[lhs["name"]] = combine(base.fields[lhs["name"]])
+                return UNIT
+        if lhs.get("k") == "Index":
+            base = self.ev(lhs["a"], env)
+            i = self.ev(lhs["i"], env)
+            if isinstance(base, ListV) and isinstance(i, int) and 0 <= i < len(base.items):
+                base.items[i] = combine(base.items[i])
                 return UNIT
         return Unknown("assign-op target")
 
@@ -1639,7 +1870,7 @@ class Interp:
             hi = it.fields["end"] + (1 if it.path.endswith("RangeInclusive") else 0)
             it = ListV(list(range(it.fields.get("start", 0), hi)))
         if not isinstance(it, ListV):
-            return Unknown("for over non-list")
+            return it if is_unknown(it) else Unknown("for over non-list %r" % (it,))
         for x in list(it.items):
             if self.bind(n["pat"], x, env) is not True:
                 return Unknown("for pattern")
